@@ -8,7 +8,7 @@ import ast
 from dataclasses import dataclass
 from fractions import Fraction
 
-from engine.core import AnalysisError, Repo, norm
+from engine.core import AnalysisError, Repo, norm, sha
 from engine.domains import Mono
 from engine.flow import enum_paths, path_facts
 
@@ -460,3 +460,44 @@ def differ_entry(a: "UfuncAnchors", x="u0", y="u1"):
         if not ok:
             bad.append(("" if truth else "not ") + text)
     return not bad, bad
+
+
+def missing_unit_rule(a: "UfuncAnchors", res, rid):
+    """An operand of a two-input ufunc that carries no unit is given the *null unit* (`Unit(registry=...)`, scale 1,
+    dimensionless) - it never borrows the other operand's unit.  Every assignment to u0 / u1 between the reading of
+    the operands' units and the selection of the unit rule is classified: (a) the reading itself (getattr(.., "units",
+    None) of the operand or of its coerced form), (b) the null unit, (c) under `ufunc is power` the exponent handling
+    (u1 is then not a unit at all; C04-R6 decides that arm).  Anything else - `u1 = u0` for a bare right operand - makes
+    `[50, 60] % > 0.6` compare 60 with 0.6 and lets `[1, 2] m > 5` through without a dimension check."""
+    stop = a.binary.index(next(st for st in a.binary if isinstance(st, ast.Assign) and norm(st.targets[0]) == "unit_operator"))
+    n = 0
+
+    def visit(stmts, in_power):
+        nonlocal n
+        for st in stmts:
+            if isinstance(st, ast.If):
+                t = norm(st.test)
+                pw = in_power or t in ("ufunc is power", "power is ufunc") or "ufunc is power" in [norm(x) for x in (st.test.values if isinstance(st.test, ast.BoolOp) and isinstance(st.test.op, ast.And) else [])]
+                visit(st.body, pw)
+                # `if A and ufunc is not power: ... elif ufunc is power:` - the else arm of a test that mentions power
+                visit(st.orelse, in_power)
+            elif isinstance(st, (ast.For, ast.While, ast.With, ast.Try)):
+                visit(getattr(st, "body", []), in_power)
+            elif isinstance(st, ast.Assign):
+                for tg in st.targets:
+                    names = [e for e in (tg.elts if isinstance(tg, ast.Tuple) else [tg]) if isinstance(e, ast.Name) and e.id in ("u0", "u1")]
+                    for nm in names:
+                        if in_power and nm.id == "u1":
+                            continue
+                        n += 1
+                        v = st.value
+                        txt = norm(v)
+                        reads = 'getattr(i0, \'units\', None)' in txt or 'getattr(i1, \'units\', None)' in txt or 'getattr(inp0, \'units\', None)' in txt or 'getattr(inp1, \'units\', None)' in txt
+                        other = "u1" if nm.id == "u0" else "u0"
+                        reads = reads and other not in {x.id for x in ast.walk(v) if isinstance(x, ast.Name)}
+                        null = isinstance(v, ast.Call) and norm(v.func) == "Unit" and not v.args and all(k.arg == "registry" for k in v.keywords)
+                        res.check(reads or null, f"missing-unit:{nm.id}:{'read' if reads else 'null' if null else 'other:' + sha(txt)[:6]}", a.fn.where(st), f"{nm.id} is set to something other than the operand's own unit or the null unit before the unit rule is chosen: an operand without units must count as dimensionless with scale 1, not borrow the other operand's unit", "getattr(<operand>, 'units', None) | Unit(registry=...)", txt, rid=rid)
+
+    visit(a.binary[:stop], False)
+    if n < 4:
+        raise AnalysisError(f"{a.fn.where(a.binary_if)}: fewer than four assignments to u0/u1 before the unit rule is chosen")
